@@ -140,7 +140,8 @@ fn c09_scenario(rep: &Reporter, sc: &Scenario, tier: Tier, stats: &C09Stats, sam
         format!("go wtime 100000000 btime 100000000 winc 100000000 binc 100000000 depth {}", sc.depth),
         "go ponder infinite".to_string(),
     ];
-    let mut jobs: Vec<(u64, Cause, usize)> = ks.iter().flat_map(|&k| causes.iter().map(move |&c| (k, c, 0usize))).collect();
+    // quick runs: stop at every point, quit at the odd and move-time expiry at the even ones
+    let mut jobs: Vec<(u64, Cause, usize)> = ks.iter().flat_map(|&k| causes.iter().filter(move |&&c| tier == Tier::Thorough || c == Cause::Stop || (c == Cause::Quit) == (k % 2 == 1)).map(move |&c| (k, c, 0usize))).collect();
     for &k in &ks {
         for f in 1..forms.len() {
             if tier == Tier::Thorough || k as usize % 5 == f % 5 {
@@ -187,7 +188,11 @@ fn c09_scenario(rep: &Reporter, sc: &Scenario, tier: Tier, stats: &C09Stats, sam
             // after the send (engine_driver). On a loaded machine the quit may therefore become
             // visible some polls after the intended one — but never after the last poll the thread
             // executed: accept every answer that is right for SOME poll in that range.
-            let last = n2 + out.obs.counters.polls.max(k) - 1;
+            // If the machine is so loaded that the gate opened before the quit message was even sent,
+            // the search may have run through ALL its polls and finished: then the complete answer is
+            // the right one (count == total selects the last iteration).
+            let polls_seen = out.obs.counters.polls.max(k);
+            let last = if polls_seen >= k_max { total } else { n2 + polls_seen - 1 };
             let ok = if cause == Cause::Quit { (count..=last).any(|c| out.best == expected_best(c)) } else { out.best == want };
             if !ok {
                 rep.report(format!("bestmove_not_from_last_completed_iteration:{:?}", cause), case(json!({"expected": want, "actual": out.best})));
